@@ -326,7 +326,15 @@ def r_forwarded(c):
     m = c.model
     f = m.func(D + "partition.find_distributed_partition")
     name = "distributed.partition.find_distributed_partition"
-    loops = find(f, """
+    # (private helpers inlined; `pid = part_of[a]; outs[pid][n] = a` and
+    # `outs[part_of[a]][n] = a` are the same loop)
+    nf = m.inlined(f)
+    loops = find(nf, """
+for $a in $sent:
+    $n = $$namer
+    $s2n[$a] = $n
+    $outs[$s2p[$a]][$n] = $a
+""") + find(nf, """
 for $a in $sent:
     $pid = $s2p[$a]
     $n = $$namer
